@@ -712,8 +712,14 @@ pub fn block_on<T: 'static>(future: impl Future<Output = T>) -> T {
                 break result.unwrap();
             }
             CallbackCode::Yield => {
+                // The waitable set is created lazily, so a future which
+                // yields before registering any waitable has no set to poll
+                // yet: there can't be an event, poll the future again.
                 let set = state.shared.waitable_set.try_lock().unwrap();
-                event = set.as_ref().unwrap().poll()
+                event = match set.as_ref() {
+                    Some(set) => set.poll(),
+                    None => (EVENT_NONE, 0, 0),
+                };
             }
             CallbackCode::Wait(_) => {
                 let set = state.shared.waitable_set.try_lock().unwrap();
